@@ -27,4 +27,9 @@ TEXT = {
   "note": "Trusted: Coq kernel+VM; hand model (coq/Model/Scope.v) tied to the code by per-run correspondence + brute-force oracle; repaired defect F10 (ClusterScope lone wildcard) is in KNOWN_FINDINGS as fixed.",
   "technique": "Coq proof over executable model + in-Coq differential correspondence",
  },
+ "C19": {
+  "text": "Coq theorems (Properties/C19.v): base64 decode(encode bs) = bs for every byte string and no encoding character is ',', '_', '=', or ASCII space; Parse is a function, accepts exactly the parts with a known label and non-empty valid base64 (fo1 entries skipped), rejects unknown label / missing separator / bad base64 / empty token / no tokens; formatting any non-empty list of non-empty tokens (any of the three labels per token) and decorating it with any sequence of FlyV1/Bearer schemes in any case and any ASCII whitespace parses back to the same tokens in order (parse_format_roundtrip, unbounded in sizes and decoration depth); permission/discharge split is exactly a filter on the location predicate; the bundle tokeniser yields Parse's tokens in order on every header Parse accepts. Model compared with format.go / bundle.parseToks / encoding/base64 on ~4k (quick) / ~90k (thorough) headers.",
+  "note": "Trusted: Coq kernel+VM; hand model of the header grammar and of Go's base64 decoder tied to the code by per-run correspondence; ASCII guard (non-ASCII Unicode space/folding not modelled); FindPermissionAndDischargeTokens is modelled parametrically in the token decoder (msgpack decode is layer B).",
+  "technique": "Coq proof over executable model + in-Coq differential correspondence",
+ },
 }
